@@ -27,6 +27,7 @@ META = {
         "outcome without a backend record and no at-most-once entry without recorded start after the failure. Non-trivial "
         "= the failing call was issued while >=2 tasks besides the batcher were alive, or carried a branch's update; "
         "distinct = (program shape, fault, decision-trace hash)."
+        " Plus LinePreempt sweeps over state.py/threading.py/executor.py for eight fixed programs with one failing call, including two in which the failing call returns at the instant a sleeping step body wakes (all tie-break orders)."
     ),
     "assumptions": ["the service client raises what a conforming boto client raises (.response with Error/ResponseMetadata)",
                     "classification table is the documented one: 4xx (not 429, not 'Invalid Checkpoint Token') => raise for retry; 429/5xx/invalid token => FAILED"],
